@@ -51,7 +51,7 @@ def _shape_runs(prop, tier):
     add(0, '***', 3, 0, f1=-2)
     add(2, '***', 3, 0, f1=-2, budget=150)
     if q:
-        for st in ('ppp', 'p2p', '2u2', 'u2p', '22u', 'upu'):
+        for st in ('ppp', 'p2p', '2u2', 'upu'):
             add(1, st, 3, 1, f1=-2)
     else:
         for g in LIM:
@@ -66,8 +66,9 @@ def _shape_runs(prop, tier):
     shapes = (('p2u1', dict(f1=-1, f2=2)), ('2u22', dict(f1=1, f2=-1)), ('u12u', dict(f1=0, f2=4)),
               ('p2u2p', dict(f1=-1, f2=2, f3=-1)), ('2u1u2', dict(f1=1, f2=-1, f3=0)), ('u22p2', dict(f1=-1, f2=-1, f3=4)))
     for st, f in shapes:
-        add(2, st, 3, 0, **f)
         if not q or st in ('p2u1', '2u1u2'):
+            add(2, st, 3, 0, **f)
+        if not q or st == 'p2u1':
             add(1, st, 3 if not q else 2, 1, budget=120, **f)
     if not q:
         add(2, '****', 3, 0, f1=-1, f2=2, budget=200)
